@@ -111,8 +111,10 @@ class TimeIntervalScheduler(Scheduler):
         Updates the previous execution time after callbacks are
         executed.
         """
-        super().update()  # Call parent to execute callbacks if available
+        # Decide once: the interval is restarted only after the callbacks ran.
         if self.is_available():
+            for callback in self._callbacks:
+                callback()
             self._previous_available_time = time.time()
 
 
